@@ -384,6 +384,42 @@ Theorem C14_trait_in_inherent_mode : forall pre i post n,
 Proof. exact trait_in_inherent_mode_diagnosed. Qed.
 Print Assumptions C14_trait_in_inherent_mode.
 
+(* item level: acceptance in trait mode means every block is an impl of the trait with the
+   trait's unsafety that defines only items of the trait and every required one ... *)
+Theorem C14_accepted_wellformed : forall t impls,
+  validate_trait t impls = None ->
+  forall i, In i impls ->
+    header_ok t i /\
+    (forall s, In s (v_items i) -> exists ti, In ti (t_items t) /\ same_item s ti) /\
+    (forall ti, In ti (t_items t) -> i_default ti = false -> exists s, In s (v_items i) /\ same_item s ti).
+Proof. exact trait_accepted_wellformed. Qed.
+Print Assumptions C14_accepted_wellformed.
+
+(* ... so a stray item and a missing required item are diagnosed wherever the block stands *)
+Theorem C14_stray_item_rejected : forall t impls i s,
+  In i impls -> In s (v_items i) -> (forall ti, In ti (t_items t) -> ~ same_item s ti) ->
+  validate_trait t impls <> None.
+Proof. exact stray_item_rejected. Qed.
+Print Assumptions C14_stray_item_rejected.
+
+Theorem C14_missing_item_rejected : forall t impls i ti,
+  In i impls -> In ti (t_items t) -> i_default ti = false ->
+  (forall s, In s (v_items i) -> ~ same_item s ti) ->
+  validate_trait t impls <> None.
+Proof. exact missing_item_rejected. Qed.
+Print Assumptions C14_missing_item_rejected.
+
+Example C14_item_nonvacuous :
+  let mk k n d := {| i_kind := k; i_name := n; i_vis := ""%string; i_ngen := 0; i_default := d |} in
+  let t := {| t_name := "K"%string; t_unsafe := false; t_items := [mk IKConst "NAME"%string false; mk IKFn "f"%string true] |} in
+  let ok := {| v_trait := Some "K"%string; v_unsafe := false; v_items := [mk IKConst "NAME"%string false] |} in
+  let stray := {| v_trait := Some "K"%string; v_unsafe := false; v_items := [mk IKConst "NAME"%string false; mk IKFn "g"%string false] |} in
+  validate_trait t [ok; ok] = None /\ validate_trait t [ok; stray] = Some NotInTrait
+  /\ validate_trait t [ok; {| v_trait := Some "K"%string; v_unsafe := false; v_items := [] |}] = Some MissingInImpl.
+Proof. vm_compute. repeat split. Qed.
+Print Assumptions C14_item_nonvacuous.
+
+
 (* ===================================================================================== *)
 (* C07 -- deterministic expansion: the only per-process input of the code is the hasher of  *)
 (* its IndexMap/IndexSet; a table over a key type whose equal keys hash equally (C12 for    *)
